@@ -26,7 +26,7 @@ const PropertyInfo kInfo = {
     "C12", 24, 16, 8,
     "tape -> (identity seeds A, B uniform 32-bit or (1/4) from {0,1,2,0x7FFFFFFF,0x80000000,0xFFFFFFFF}, or no seed (random_device, made deterministic); "
     "peer ids all-zero / all-0xFF / expanded from a byte, equal for both nodes in 1/8 of the cases; handshake PoW difficulty from {0,4,0,1,8,0,2,6}; who accepts first; "
-    "a third identity B' = seed B + 1 + k with another peer id (public key normally differs) or the same seed under another peer id (equal public key); "
+    "in 1/4 of the cases one end rotates its key (tick after the rotation interval) and both handshake again after the cooldown; a third identity B' = seed B + 1 + k with another peer id (public key normally differs) or the same seed under another peer id (equal public key); "
     "a candidate public value from {0,1,2,3,p-2,p-1,p,p+1,2^31,2^32-1} or uniform, offered from a fresh peer id with a reference-solved PoW; "
     "each record: private scalars a, b from {2,3,4,p-3,p-2} or uniform in [2,p-2] and a candidate public x from the table above or uniform). "
     "Oracle: compute_public / make_keypair == 5^a mod p by 128-bit reference; derive_shared_secret(a, g^b) == derive_shared_secret(b, g^a) == "
@@ -249,6 +249,19 @@ void run_case(Ctx& c) {
         auto again = A.node->session_key(B.id);
         if (!again.has_value() || *again != ab.key)
             c.fail("C12:session-key-changed-by-other-peer", "A's key for B changed after a handshake with B'");
+    }
+
+    // ---- a second mutual handshake after one side has rotated its session key ---------------------
+    // "when each node accepts the other's handshake both hold the same key": that also holds for a re-handshake of the
+    // same two identities, whatever happened to the first key in between.
+    if (established && (t.h(20) & 0x18) == 0x18) {
+        vclock::advance(A.node->config().key_rotation_interval + std::chrono::seconds(1));
+        (a_first ? A : B).node->tick();   // one end rotates, the other does not
+        vclock::advance(std::max(A.node->config().handshake_cooldown, B.node->config().handshake_cooldown) + std::chrono::seconds(1));
+        c.note("re-handshake-after-rotation");
+        c.nt("rehandshake_after_one_sided_rotation");
+        Pairing again2 = mutual(c, A, B, !a_first, difficulty, "A<->B (again, after a one-sided rotation)");
+        (void)again2;
     }
 
     // ---- a candidate public value offered from a fresh peer id -----------------------------------
